@@ -30,6 +30,13 @@ digit  : names whose first alphanumeric character is a DIGIT that follows punctu
          every rename_column / view-rename / replacement / append history of length 1 (thorough: 2) that introduces such a name.
          The accessor is the documented one ('c100', 'c1_seed', 'c2023_revenue', 'c7up', 'c9lives'): a valid identifier that starts
          with a lower-case letter (checked on every case of every block), resolving through every channel.
+unders : stored names built from SEGMENTS joined by one, two and three underscores, with numeric and non-numeric tails:
+         'a<sep>t' and 'a<sep>m<sep>t' for every sep in {_, __, ___}, m in {b, 1}, t in {b/c, 0, 1, 2} ('a__b', 'a__b__0', 'a___2',
+         'a__1__2', 'a__b__c', 'a_b___1', ...): every such name alone; every name list of width 2 over the two-segment names plus
+         a 12-name core, and of width 3 over the core (thorough: over all 20), repeats included; and for every name P<sep>d with a
+         numeric tail d, the width-3 lists holding P twice and the name once in every arrangement (so that a repeat of P and the
+         stored name compete for the generated accessor P__d).  Checked like every static list: each advertised accessor resolves
+         (getattr / row attribute / item-assignment key) to exactly one column, every column is reachable, dot row, t[stored].
 
 Oracle (from the statement only): a plain list of stored names is the model; the advertised
 accessor set is whatever dir(t) adds over dir(Table()); it has to be a set of distinct valid
@@ -632,8 +639,48 @@ def digit_cases(tier):
 assert all(san_base(k) == v for k, v in DIGIT_EXPECT.items())
 
 
+# ---------------------------------------------------------------------------------------------
+# segments joined by 1, 2 and 3 underscores, numeric and non-numeric tails
+# ---------------------------------------------------------------------------------------------
+US_SEPS = ['_', '__', '___']
+US_TWO = [f'a{s_}{t_}' for s_ in US_SEPS for t_ in ('b', '0', '1', '2')]
+US_THREE = [f'a{s1}{m_}{s2}{t_}' for s1 in US_SEPS for m_ in ('b', '1') for s2 in US_SEPS for t_ in ('c', '0', '1', '2')]
+US_CORE = ['a', 'a__b', 'a__b__0', 'a__b__1', 'a__b__2', 'a___1', 'a___2', 'a__1__2', 'a__1', 'a__b__c', 'a__b___1', 'a_b__1']
+US_WIDE = US_CORE + ['a___b', 'a__b_1', 'a_b', 'a__2', 'a__1__1', 'a___b__2', 'A__B__0', 'a__b__']
+
+
+def underscore_cases(tier):
+    seen = set()
+
+    def once(names):
+        k = lit(names)
+        if k not in seen:
+            seen.add(k)
+            return [{'op': 'static', 'names': k, 'blk': 'unders'}]
+        return []
+    for n in US_TWO + US_THREE + US_WIDE:
+        yield from once([n])
+    two = list(dict.fromkeys(US_TWO + US_CORE))
+    for combo in itertools.product(two if tier == 'quick' else list(dict.fromkeys(two + US_WIDE)), repeat=2):
+        yield from once(list(combo))
+    for combo in itertools.product(US_CORE if tier == 'quick' else US_WIDE, repeat=3):
+        yield from once(list(combo))
+    # a repeated prefix P next to the stored name P<sep><digits>: the repeat and the stored name compete for P__<d>
+    for n in US_TWO + US_THREE:
+        m_ = re.match(r'^(.*?[a-z0-9])(_+)(\d+)$', n)
+        if not m_:
+            continue
+        p_ = m_.group(1)
+        for arrangement in ([p_, p_, n], [p_, n, p_], [n, p_, p_]):
+            yield from once(arrangement)
+        if tier != 'quick':
+            for arrangement in ([p_, p_, p_, n], [n, p_, p_, p_], [p_, n, n], [n, n, p_]):
+                yield from once(arrangement)
+
+
 def cases(tier, seed):
     yield from _cases_v1(tier, seed)
+    yield from underscore_cases(tier)
     yield from digit_cases(tier)
     yield from wide_cases(tier)
     yield from rename_first_cases(tier)
@@ -665,7 +712,13 @@ def evaluate(case):
             build(names)
         except Exception as e:
             return [Fail('C17:Table:construct-raises', f'Table of columns named {case["names"]} raised {type(e).__name__}: {e}')]
-        return check(lambda: (build(names), list(names)), f'names {case["names"]}')
+        out = check(lambda: (build(names), list(names)), f'names {case["names"]}')
+        if case.get('blk') == 'unders':
+            # names whose sanitised form holds several underscore groups: own failure family
+            for f in out:
+                if f['key'].startswith('C17:'):
+                    f['key'] += ':multi-underscore-name'
+        return out
     hist = ev(case['hist'])
     try:
         _, model = scenario(names, hist)
@@ -713,6 +766,8 @@ def nontrivial(case):
     h = tuple(o[0] for o in ev(case['hist'])) if case['op'] == 'hist' else ()
     if case.get('blk') == 'digit':
         return ('digit', case['names'], case.get('hist'))
+    if case.get('blk') == 'unders':
+        return ('unders', case['names'])
     if case['op'] == 'byname':
         # a key that is one column's stored name and another column's accessor (twin / generated look-alike)
         accs = accessors_of(names, [])
@@ -738,6 +793,8 @@ if __name__ == '__main__':
               'selection / rows x name / sort_by / join keys / partition keys by stored names that are other columns\' accessors; '
               'names whose first alphanumeric character is a digit after punctuation / space / underscore ($100, #1 seed, (2023) revenue, '
               '_7up, " 9lives") statically (width <= 3) and introduced by renames / appends: accessor = c + digits..., letter-initial; '
+              'names made of segments joined by 1-3 underscores with numeric / non-numeric tails (a__b__0, a___2, a__1__2 ...) alone, in all lists of '
+              'width 2 / 3 over a core alphabet and next to a repeated prefix; '
               'distinct = (per-column sanitisation class pattern, op kinds)',
          bound=lambda tier: {'static_width': 3 if tier == 'quick' else 4, 'alphabet': len(ALPHABET),
                              'hist_base_width': 2, 'hist_len': 2,
@@ -746,5 +803,6 @@ if __name__ == '__main__':
                              'wide_widths': WIDE_WIDTHS, 'wide_groups': len(WIDE_GROUPS), 'rename_first_bases': len(RC_BASES),
                              'byname_alphabet': len(BYNAME_ALPHABET), 'byname_width': 3 if tier == 'quick' else 4,
                              'digit_alphabet': [repr(n) for n in DIGIT_ALPHABET], 'digit_width3_alphabet': len(DIGIT_CORE if tier == 'quick' else DIGIT_ALPHABET),
-                             'digit_hist_len': 1 if tier == 'quick' else 2},
+                             'digit_hist_len': 1 if tier == 'quick' else 2,
+                             'underscore_names': len(US_TWO) + len(US_THREE), 'underscore_core': US_CORE if tier == 'quick' else US_WIDE},
          nontrivial=nontrivial)
